@@ -144,13 +144,16 @@ def build(shape):
         for b in blocks[:3]:
             bnds = insn_bounds(bytes(b.contents))
             for o in bnds[:-1]:
-                key = gtirb.Offset(bi, b.offset + o) if shape.ann == "interval" else gtirb.Offset(b, o)
+                key = gtirb.Offset(bi, b.offset + o) if shape.ann.startswith("interval") else gtirb.Offset(b, o)
                 p = b.offset + o
                 comments[key] = "c%d" % p
                 padding[key] = 200 + p
         for k in bi.symbolic_expressions:
             b = [x for x in blocks[:4] if x.offset <= k < x.offset + x.size][0]
-            sizes[gtirb.Offset(bi, k) if shape.ann == "interval" else gtirb.Offset(b, k - b.offset)] = 1 if shape.kind != "call" else 4
+            sizes[gtirb.Offset(bi, k) if shape.ann.startswith("interval") else gtirb.Offset(b, k - b.offset)] = 1 if shape.kind != "call" else 4
+        if shape.ann.endswith("-rev"):
+            # the same entries recorded in descending position order (aux data tables are plain dicts: no order is promised)
+            comments, padding, sizes = (dict(reversed(list(d.items()))) for d in (comments, padding, sizes))
         _auxdata.comments.set(m, comments)
         _auxdata.padding.set(m, padding)
         _auxdata.symbolic_expression_sizes.set(m, sizes)
